@@ -136,6 +136,14 @@ func (k *Keeper) UpdateParams(goCtx context.Context, req *types.MsgUpdateParams)
 		return nil, errorsmod.Wrapf(govtypes.ErrInvalidSigner, "invalid authority, expected %s, got %s", k.authority.String(), req.Authority)
 	}
 
+	// every active precompile must be one the keeper can instantiate: ApplyMessageWithConfig builds the
+	// EVM's precompile map from this list and Precompiles panics on an address it does not know
+	for _, address := range req.Params.GetActivePrecompilesAddrs() {
+		if !k.IsAvailablePrecompile(address) {
+			return nil, errorsmod.Wrapf(types.ErrInactivePrecompile, "precompile %s is not available", address)
+		}
+	}
+
 	ctx := sdk.UnwrapSDKContext(goCtx)
 	if err := k.SetParams(ctx, req.Params); err != nil {
 		return nil, err
